@@ -1,5 +1,6 @@
 /- Property C17: the property theorems (and nothing else). -/
-import Frugal.Props.Instances
+import Frugal.Props.Inst.F_facts_envParsing
+import Frugal.Props.Inst.F_facts_legacyInert
 namespace Frugal.C17
 open Frugal
 theorem legacy_controls_inert : Generated.facts.legacyInert = true := Instances.facts_legacyInert
